@@ -220,6 +220,21 @@ def run_attack(cfg, out):
                         for _k in range(r.choice([50, 200, 400])):
                             rogue.udp.send(L.make_payload(rogue.sender_id, r.randrange(1 << 30), r.choice([11, 12, 64])), retry=0)
                         c.inc("inj_authenticated_flood")
+                        if r.random() < 0.25:
+                            # ... and authenticated but malformed: well-sealed datagrams no honest implementation would build
+                            # (a DISCONNECT followed by a 3-byte fragment, fragments with index 0 / count 0 / index > count,
+                            # a keep-alive with a body, count 0, a second DISCONNECT).  The session is the rogue's to lose; the loop
+                            # and everybody else carry on
+                            key_ = rogue.udp.conn.session_key_bytes
+                            sq = (int(rogue.udp.conn.seq_sending) + 200 + hello_n[0] % 1000) % 65535 + 1
+                            ms = (int(rogue.udp.conn.seq_message) + 2000) % 65535 + 1
+                            fr = lambda fid, idx, cnt, data=b"z" * 9: struct.pack(">HHH", fid, idx, cnt) + data
+                            weird = [(6, [(ms, 5, b""), (ms + 1, 7, b"abc")]), (7, [(ms, 7, fr(3, 0, 2))]), (7, [(ms, 7, fr(4, 1, 0))]), (7, [(ms, 7, fr(5, 3, 2))]),
+                                     (7, [(ms, 7, b"ab")]), (4, [(ms, 4, b"body-in-keep-alive")]), (6, []), (6, [(ms, 5, b""), (ms + 1, 5, b"")]),
+                                     (6, [(ms, 7, fr(6, 1, 65535)), (ms + 1, 6, b"x" * 20)]), (6, [(ms, 0, b"unknown-type")]), (6, [(ms, 3, bytes(8))]), (6, [(ms, 1, bytes(60))])]
+                            ptype_, msgs_ = r.choice(weird)
+                            w.offer_server(rogue.addr, A.seal(key_, "c2s", ptype_, sq, 1, 0, msgs_, int(w.clock.now), count=len(msgs_)), "forged:authenticated-malformed")
+                            c.inc("inj_authenticated_malformed")
             w.step()
             if not w.alive():
                 viol("server-loop-died", "the server thread died: %s" % (w.thread_errors[:2],))
@@ -382,7 +397,7 @@ def run_shard(cfg):
 def finish(tier, seed, results):
     m = merge(results)
     inconclusive = []
-    need(m["counters"], ["echo_requests", "echoes_received", "inj_random_bytes", "inj_hello_flood", "inj_hello_repeat", "inj_hello_undersized", "inj_hello_every_length", "inj_hello_flood_from_honest_ip",
+    need(m["counters"], ["echo_requests", "echoes_received", "inj_random_bytes", "inj_hello_flood", "inj_hello_repeat", "inj_hello_undersized", "inj_hello_every_length", "inj_hello_flood_from_honest_ip", "inj_authenticated_malformed",
                          "inj_from_blocklisted", "inj_spoofed_from_honest", "inj_authenticated_flood", "bytes_to_unauthenticated_addresses",
                          "offered_blocklisted", "appended", "server_iterations", "freerun_appended", "freerun_consumed"], inconclusive)
     cov = {
